@@ -87,7 +87,8 @@ def run(ctx):
             collide = sorted(x for x in os.listdir(s2))
         shutil.rmtree(d, ignore_errors=True)
         return i, c, body, pg.returncode, ps.returncode, listing, cm, collide
-    jobs = [(i, c, e) for i, c in enumerate(cases) for e in (extra if not c["schema"]["aux"] else extra[:1])]
+    # (the three-schema files of the family belong to the front-end checks: their file lists are not modelled here)
+    jobs = [(i, c, e) for i, c in enumerate(cases) if not c["schema"].get("aux3") for e in (extra if not c["schema"]["aux"] else extra[:1])]
     n = dis = 0
     samples = []
     with cf.ThreadPoolExecutor(max_workers=12) as ex:
